@@ -352,7 +352,7 @@ func debugStore() bool { return os.Getenv("VERIF_DEBUG") != "" }
 type storeGenState struct {
 	r   *hx.Rng
 	occ map[[2]int]string // generator's own guess of what is stored (only to bias choices)
-	np  int             // number of paths per account (6; 40 in "wide" histories whose domain maps span several slabs)
+	np  int               // number of paths per account (6; 40 in "wide" histories whose domain maps span several slabs)
 }
 
 func storeRandVal(r *hx.Rng) string {
